@@ -257,10 +257,45 @@ def check_gen_docs(case, rec):
     rec.nontrivial(n > 0)
 
 
+def scc_strategy(tier):
+    from ..ref import sccprog as SP
+
+    @st.composite
+    def build(draw):
+        prog = draw(SP.program_strategy(max_captions=3))
+        # italics that stay on across several repositionings: italic PACs on non-adjacent rows
+        if draw(st.integers(0, 2)) == 0:
+            for cap in prog["captions"]:
+                for r in cap["rows"]:
+                    if draw(st.booleans()):
+                        r["pit"], r["color"], r["indent"] = True, None, 0
+        return prog
+    return build()
+
+
+def check_scc(case, rec):
+    from ..ref import sccprog as SP
+    from pycaption import SCCReader
+    doc = SP.to_scc(case)
+    try:
+        cs = SCCReader().read(doc)
+    except Exception:  # noqa  (reading SCC is judged by C05/C06/C15)
+        rec.label("unreadable")
+        return
+    n = 0
+    for i, cap in enumerate(cs.get_captions(cs.get_languages()[0])):
+        check_balanced_py(cap, f"generated SCC program: caption {i} ({cap.get_text()!r}); document: {doc}")
+        n += sum(1 for x in cap.nodes if x.type_ == 2)
+    rec.nontrivial(n > 0)
+    if n:
+        rec.label("has-italics")
+
+
 def subchecks(tier):
     return [
         Sub("roundtrip", check_roundtrip, strategy=set_strategy, examples=(3000, 100000), min_per_shard=100),
         Sub("webvtt", check_webvtt, strategy=set_strategy, examples=(6000, 200000), min_per_shard=300),
         Sub("corpus-readers", check_corpus, chunks=corpus_chunks, expand=corpus_expand, exhaustive=True),
+        Sub("scc-readers", check_scc, strategy=scc_strategy, examples=(2500, 100000), min_per_shard=100),
         Sub("generated-readers", check_gen_docs, strategy=gen_docs_strategy, examples=(4000, 100000), min_per_shard=300),
     ]
